@@ -146,8 +146,17 @@ def eval_formula(formula, cells=None, addr='Z9', overrides=None, sheets=None, de
 
     def go():
         cl = build(sh, entry)
-        e = executor(cl)
         remap = lambda os_: [Cell(o.title + shift if isinstance(o.title, int) else o.title, o.column, o.row, o.value) for o in os_] if shift else os_
+        # a SIBLING executor of the same class object works first, under other overrides: what it is given and what it calculates must
+        # not reach the executor under test
+        sib = executor(cl)
+        c_s, r_s = a1(addr)
+        if overrides:
+            sib.set_cells(remap([Cell(o.title, o.column, o.row, _perturbed(o.value)) for o in overrides]))
+        else:
+            sib.set_cells([Cell(shift, 0, 0, 424242)])
+        outcome(lambda: sib.get_cell(Cell(shift, c_s, r_s)).value)
+        e = executor(cl)
         if pre_overrides:
             # an earlier state of the same executor: other values in the same cells, read once, then replaced by `overrides`
             e.set_cells(remap(pre_overrides))
